@@ -56,7 +56,7 @@ def cls(v):
     return type(v).__name__
 
 
-REQUIRED = (['online:sort-with-missing-key-cells', 'online:mergesort-3+-inputs', 'online:sort-chunked-3+-chunks', 'online:sort-chunked-3+-chunks-reverse', 'law-pairs', 'law-triples', 'online:sort', 'online:join', 'online:select', 'online:issorted', 'online:mergesort',
+REQUIRED = (['online:select-in-method-form', 'online:sort-with-missing-key-cells', 'online:mergesort-3+-inputs', 'online:sort-chunked-3+-chunks', 'online:sort-chunked-3+-chunks-reverse', 'law-pairs', 'law-triples', 'online:sort', 'online:join', 'online:select', 'online:issorted', 'online:mergesort',
              'nested-vs-flat'] + ['classpair:%s|%s' % (x, y) for x in CLASSES for y in CLASSES])
 
 
@@ -97,6 +97,7 @@ def cases(ctx):
         if which == 'select':
             c['value'] = rng.choice(pool + [rng.choice(flat)])
             c['value2'] = rng.choice(pool + [rng.choice(flat)])
+            c['via'] = rng.choice([None, None, 'method', 'alias'])      # etl.selectge(t, ..), etl.wrap(t).selectge(..), etl.wrap(t).ge(..)
         if which in ('join', 'mergesort'):
             c['table2'] = [['k', 'b']] + [[rng.choice(pool), 's%d' % r] for r in range(rng.randint(0, 5))]
         if which == 'mergesort':
@@ -297,8 +298,17 @@ def _judge_online(case, ctx):
             v, v2 = case['value'], case['value2']
             cells = [r[0] for r in rows]
 
+            via = case.get('via')
+            short = {'selectlt': 'lt', 'selectle': 'le', 'selectgt': 'gt', 'selectge': 'ge'}
+            if via:
+                ctx.seen('online:select-in-method-form')
+
             def sel(fn, *a):
-                g = util.attempt_rows(lambda: getattr(petl, fn)(table, 'k', *a))
+                if via:
+                    mname = short.get(fn, fn) if via == 'alias' else fn
+                    g = util.attempt_rows(lambda: getattr(petl.wrap(table), mname)('k', *a))
+                else:
+                    g = util.attempt_rows(lambda: getattr(petl, fn)(table, 'k', *a))
                 if isinstance(g, util.Raised):
                     out.append({'kind': 'exception', 'fn': fn, 'detail': g.text, 'where': g.where})
                     return None
